@@ -224,6 +224,14 @@ def large_inputs(ctx, n=None):
     return ctx.validate_trace("large")
 
 
+def repetitions(ctx, reps=None):
+    """identical calls repeated many times (shapes an implementation would parallelise, batch or pool): every repetition must
+    answer like the first, the first is trace-validated, and no slice returned earlier may change"""
+    reps = reps or (1500 if ctx.tier == "thorough" else 300)
+    ctx.drive("repeat", "repeat", reps)
+    return ctx.validate_trace("repeat")
+
+
 def sessions(ctx, n=None):
     """histories of related calls (same ids in every spelling, through all three functions), every event trace-validated: a result
     that depends on earlier calls is rejected where it shows.  Two processes: the ids listed at several table positions are walked
@@ -279,7 +287,7 @@ def finish(ctx, relevant, level="model_checking", extra_cov=None, rule=None):
     for m in ctx.mismatches:
         m.setdefault("property", ctx.prop)
         m["property"] = ctx.prop
-        if m["what"] not in relevant and m["what"] != "panic":
+        if m["what"] not in relevant and m["what"] not in ("panic", "unstable-result", "result-overwritten"):
             foreign.append(m)
             continue
         hit = next((e for e in known if finding_matches(e, m)), None)
